@@ -32,6 +32,10 @@ func genC12(g gen.G) C12Case {
 		// well-typed, parse-clean values: the innermost-literal clause applies to most of them
 		o.Cfg.Typed, o.Cfg.HalfTyped, o.Edits = true, 0, 0
 	}
+	if g.Chance(30) {
+		// value-centred world: rich any-expression attributes, nested values, resolving references
+		return C12Case{World: g.ValueWorld(gen.CfgOpts{Typed: true, Layout: g.Chance(30)})}
+	}
 	return C12Case{World: g.World(o)}
 }
 
@@ -228,14 +232,18 @@ func checkC12(c C12Case) Result {
 						if as, ok := attrSchemaAt(loc); ok {
 							if vt, ok := refmodel.ModelValueTokens(as.Cons, loc.Attr.Expr, p.Funcs); ok {
 								for _, lt := range vt.Required {
-									if (lt.Type != "hcl-number" && lt.Type != "hcl-bool" && lt.Type != "hcl-string") || off <= lt.Start || off >= lt.End {
+									if (lt.Type != "hcl-number" && lt.Type != "hcl-bool" && lt.Type != "hcl-string") || off < lt.Start || off >= lt.End {
 										continue
 									}
 									r.Class("value:cursor-inside-determined-literal")
-									if !got {
-										r.Fail("hover-literal-missing", "%s strictly inside the literal %d-%d (%s) of a value that fits its constraint (%s): no hover data (err %v)\n%s", cl, lt.Start, lt.End, lt.Type, as.Cons.K, res.Err, clip(f.Text, 700))
+									if !got && constructorInConditionalBranch(loc.Attr.Expr, lt.Start, lt.End) {
+										// hover (unlike semantic tokens) types the branches of a conditional as "any type",
+										// under which a constructor is only interpreted when it is a literal as a whole
+										r.Fail("hover-literal-missing:constructor-in-conditional-branch", "%s inside the literal %d-%d (%s), which lies in a list / object constructor that is a branch of a conditional: no hover data\n%s", cl, lt.Start, lt.End, lt.Type, clip(f.Text, 700))
+									} else if !got {
+										r.Fail("hover-literal-missing", "%s inside the literal %d-%d (%s) of a value that fits its constraint (%s): no hover data (err %v)\n%s", cl, lt.Start, lt.End, lt.Type, as.Cons.K, res.Err, clip(f.Text, 700))
 									} else if hd.Range.Start.Byte != lt.Start || hd.Range.End.Byte != lt.End {
-										r.Fail("hover-literal-not-innermost", "%s strictly inside the literal %d-%d (%s): hover range %d-%d is not that literal (content %q)\n%s", cl, lt.Start, lt.End, lt.Type, hd.Range.Start.Byte, hd.Range.End.Byte, clip(hd.Content.Value, 200), clip(f.Text, 700))
+										r.Fail("hover-literal-not-innermost", "%s inside the literal %d-%d (%s): hover range %d-%d is not that literal (content %q)\n%s", cl, lt.Start, lt.End, lt.Type, hd.Range.Start.Byte, hd.Range.End.Byte, clip(hd.Content.Value, 200), clip(f.Text, 700))
 									}
 								}
 							}
@@ -284,3 +292,56 @@ func attrSchemaAt(loc refmodel.Loc) (m.AttrM, bool) {
 
 func TestC12(t *testing.T)        { Run(t, "C12", genC12, checkC12) }
 func TestReplay_C12(t *testing.T) { Replay(t, "C12", checkC12) }
+
+// constructorInConditionalBranch reports whether the range s-e lies inside a tuple / object
+// constructor that is itself (part of) a branch of a conditional expression.
+func constructorInConditionalBranch(expr hclsyntax.Expression, s, e int) bool {
+	found := false
+	var walk func(n hclsyntax.Expression, inBranch bool)
+	walk = func(n hclsyntax.Expression, inBranch bool) {
+		if n == nil || found {
+			return
+		}
+		rg := n.Range()
+		if s < rg.Start.Byte || e > rg.End.Byte {
+			return
+		}
+		switch x := n.(type) {
+		case *hclsyntax.ConditionalExpr:
+			walk(x.Condition, inBranch)
+			walk(x.TrueResult, true)
+			walk(x.FalseResult, true)
+		case *hclsyntax.ParenthesesExpr:
+			walk(x.Expression, inBranch)
+		case *hclsyntax.TupleConsExpr:
+			if inBranch {
+				found = true
+				return
+			}
+			for _, el := range x.Exprs {
+				walk(el, false)
+			}
+		case *hclsyntax.ObjectConsExpr:
+			if inBranch {
+				found = true
+				return
+			}
+			for _, it := range x.Items {
+				walk(it.ValueExpr, false)
+			}
+		case *hclsyntax.BinaryOpExpr:
+			walk(x.LHS, false)
+			walk(x.RHS, false)
+		case *hclsyntax.UnaryOpExpr:
+			walk(x.Val, false)
+		case *hclsyntax.FunctionCallExpr:
+			for _, a := range x.Args {
+				walk(a, false)
+			}
+		case *hclsyntax.IndexExpr:
+			walk(x.Key, false)
+		}
+	}
+	walk(expr, false)
+	return found
+}
